@@ -133,6 +133,13 @@ type world struct {
 	parked   atomic.Bool
 	parkedAt string
 	resume   chan struct{}
+	// a second park, armed only while the first one holds: TWO loop goroutines stopped at once (an exiting
+	// loop that has already given the running token back, and the loop an Enqueue started after it)
+	arm2Hook  string
+	arm2N     int
+	parked2   atomic.Bool
+	parked2At string
+	resume2   chan struct{}
 
 	gateOn atomic.Bool
 	gate   chan struct{}
@@ -166,11 +173,25 @@ func (w *world) hook(name string) {
 			w.parkedAt = name
 		}
 	}
+	park2 := false
+	if !park && w.arm2Hook != "" && name == w.arm2Hook && w.parked.Load() {
+		w.arm2N--
+		if w.arm2N <= 0 {
+			w.arm2Hook = ""
+			park2 = true
+			w.parked2At = name
+		}
+	}
 	w.mu.Unlock()
 	if park {
 		rec.Count("park."+name, 1)
 		w.parked.Store(true)
 		<-w.resume
+	}
+	if park2 {
+		rec.Count("park2."+name, 1)
+		w.parked2.Store(true)
+		<-w.resume2
 	}
 }
 
@@ -467,6 +488,32 @@ func plans() []plan {
 			}
 		}
 	}
+	// two loops: an exiting loop stopped at loop.empty (it has given the token back) AND the loop started by a
+	// later Enqueue stopped at one of its own hook points; operations are issued, then the two are let go in
+	// either order
+	for _, h2 := range []string{"loop.start", "loop.peeked", "loop.armed"} {
+		for _, n := range []int{1, 2} {
+			for _, k1 := range placedKinds {
+				for _, order := range [][2]string{{"resume-a", "resume-b"}, {"resume-b", "resume-a"}} {
+					var k2s []string
+					if mon.Thorough() && k1 != "close" {
+						k2s = placedKinds
+					} else {
+						k2s = []string{""}
+					}
+					for _, k2 := range k2s {
+						ops := append([]op{}, setupFor("loop.empty", n)...)
+						ops = append(ops, op{Kind: "arm2", Hook: h2}, op{Kind: "placed"}, op{Kind: "enq", Key: "a", Off: 10 * time.Millisecond}, op{Kind: "placed2"}, placed(k1))
+						if k2 != "" {
+							ops = append(ops, placed(k2))
+						}
+						ops = append(ops, op{Kind: order[0]}, op{Kind: order[1]}, op{Kind: "resume"})
+						ps = append(ps, plan{mode: "directed", ops: ops, desc: fmt.Sprintf("twoloops loop.empty#%d|%s+%s+%s/%s-first", n, h2, k1, k2, order[0])})
+					}
+				}
+			}
+		}
+	}
 	// gated: a callback blocks inside executeFn while operations are issued; Close must wait for it
 	for _, k1 := range placedKinds {
 		for _, k2 := range placedKinds {
@@ -540,7 +587,7 @@ func TestCheck(t *testing.T) {
 	rec = mon.Open("C06")
 	defer rec.Close()
 	rec.Note("rule", "a case is one history run against the real Processor in a synctest bubble: (directed) the loop parked at each hook point x hit 1-2 x each placed operation kind (pairs of kinds as well); (random) 4-24 seeded Enqueue/Dequeue/Sleep/Close operations in lock-step with seeded hook parking; (racing) 2-4 goroutines issuing operations at the same virtual instants. Non-trivial = at least one callback was observed or an item was removed before running; distinct = distinct operation list.")
-	rec.Note("require", []string{"park.loop.start", "park.loop.empty", "park.loop.peeked", "park.loop.armed", "park.loop.fired", "park.exec.popped", "callbacks", "callback.reentrant_enqueue", "callback.reentrant_dequeue", "enq.far_future_item", "placed.close", "placed.enq", "placed.deq", "racing.same_instant_ops", "gated.close_waited_for_callback", "placed.second_close"})
+	rec.Note("require", []string{"park.loop.start", "park.loop.empty", "park.loop.peeked", "park.loop.armed", "park.loop.fired", "park.exec.popped", "callbacks", "callback.reentrant_enqueue", "callback.reentrant_dequeue", "enq.far_future_item", "placed.close", "placed.enq", "placed.deq", "racing.same_instant_ops", "gated.close_waited_for_callback", "placed.second_close", "twoloops.both_parked"})
 	ps := plans()
 	rec.Planned(len(ps))
 	for idx, pl := range ps {
@@ -564,6 +611,7 @@ func runSeq(t *testing.T, idx int, pl plan) {
 	w := &world{idx: idx, mode: pl.mode, history: pl.ops}
 	res := mon.Bubble(t, func() {
 		w.resume = make(chan struct{})
+		w.resume2 = make(chan struct{})
 		w.gate = make(chan struct{})
 		h := w.hook
 		queue.VerifHook.Store(&h)
@@ -611,6 +659,12 @@ func runSeq(t *testing.T, idx int, pl plan) {
 				w.resume <- struct{}{}
 			}
 		}
+		resumeLoop2 := func() {
+			if w.parked2.Load() {
+				w.parked2.Store(false)
+				w.resume2 <- struct{}{}
+			}
+		}
 		var parkOps []string
 		for i := 0; i < len(pl.ops) && !w.viol; i++ {
 			o := pl.ops[i]
@@ -630,6 +684,29 @@ func runSeq(t *testing.T, idx int, pl plan) {
 				}
 				placedMode = true
 				w.lastPark, parkOps = w.parkedAt, nil
+				continue
+			case "arm2":
+				w.mu.Lock()
+				w.arm2Hook, w.arm2N = o.Hook, 1
+				w.mu.Unlock()
+				continue
+			case "placed2":
+				// the loop started by the previous Enqueue must now be stopped at the second hook
+				synctest.Wait()
+				if !w.parked2.Load() {
+					rec.Inconclusive(idx, "two-loops plan did not reach its second hook", pl.desc)
+					return
+				}
+				w.lastPark = w.parkedAt + "|" + w.parked2At
+				rec.Count("twoloops.both_parked", 1)
+				continue
+			case "resume-a":
+				resumeLoop()
+				synctest.Wait()
+				continue
+			case "resume-b":
+				resumeLoop2()
+				synctest.Wait()
 				continue
 			case "resume":
 				w.lastParkOps = parkOps
@@ -730,9 +807,10 @@ func runSeq(t *testing.T, idx int, pl plan) {
 			w.gateOn.Store(false)
 			close(w.gate)
 			w.mu.Lock()
-			w.armHook = ""
+			w.armHook, w.arm2Hook = "", ""
 			w.mu.Unlock()
 			resumeLoop()
+			resumeLoop2()
 			if !closing {
 				doClose()
 			}
@@ -743,9 +821,10 @@ func runSeq(t *testing.T, idx int, pl plan) {
 		w.gateOn.Store(false)
 		close(w.gate)
 		w.mu.Lock()
-		w.armHook = ""
+		w.armHook, w.arm2Hook = "", ""
 		w.mu.Unlock()
 		resumeLoop()
+		resumeLoop2()
 		time.Sleep(2 * time.Hour)
 		synctest.Wait()
 		w.judge(true)
